@@ -2,6 +2,7 @@ package verifsim
 
 import (
 	"fmt"
+	"os"
 	"runtime"
 	"sort"
 	"strings"
@@ -9,6 +10,7 @@ import (
 	"sync/atomic"
 	"testing/synctest"
 	"time"
+	"unsafe"
 
 	"github.com/smart-core-os/sc-golang/internal/simhook"
 )
@@ -116,7 +118,11 @@ type World struct {
 	lazyGo   bool
 	selSalt  uint64 // seeds the choice among ready select cases, per step
 	spawnSeq [maxPoints]int32
-	salt     uint64
+	waitingW [16]struct {
+		addr uintptr
+		n    int32
+	} // writers waiting at a gate, per mutex
+	salt uint64
 
 	// interference: which task kinds ran while another task was parked at a hook point
 	overlaps int64
@@ -158,6 +164,74 @@ func init() {
 		}
 		w.hook(point, try)
 	}
+	simhook.GateHandler = func(point string, mu unsafe.Pointer, read bool, try func() bool) {
+		w := curWorld.Load()
+		if w == nil {
+			return
+		}
+		w.hook(point, w.writerPreference(uintptr(mu), read, try))
+	}
+}
+
+// writerPreference gives lock gates the queueing discipline of sync.RWMutex: once a writer has found the mutex taken
+// (i.e. would be blocked inside Lock, which announces it), readers arriving later do not get in before it.
+//
+//go:norace
+func (w *World) writerPreference(addr uintptr, read bool, try func() bool) func() bool {
+	if read {
+		return func() bool {
+			if w.writersWaiting(addr, 0) > 0 {
+				return false
+			}
+			return try()
+		}
+	}
+	announced := false
+	return func() bool {
+		if try() {
+			if announced {
+				w.writersWaiting(addr, -1)
+				announced = false
+			}
+			return true
+		}
+		if !announced {
+			w.writersWaiting(addr, +1)
+			announced = true
+		}
+		return false
+	}
+}
+
+// writersWaiting adjusts (by delta) and returns the number of writers waiting at a gate for the mutex at addr.
+//
+//go:norace
+func (w *World) writersWaiting(addr uintptr, delta int32) int32 {
+	hideBegin()
+	w.mu.Lock()
+	defer func() {
+		w.mu.Unlock()
+		hideEnd()
+	}()
+	if os.Getenv("VERIF_DEBUG_WP") != "" && delta != 0 {
+		defer func() { println("WP", addr, delta, "step", w.step) }()
+	}
+	free := -1
+	for i := range w.waitingW {
+		e := &w.waitingW[i]
+		if e.addr == addr && e.n > 0 {
+			e.n += delta
+			return e.n
+		}
+		if e.n == 0 && free < 0 {
+			free = i
+		}
+	}
+	if delta > 0 && free >= 0 {
+		w.waitingW[free].addr, w.waitingW[free].n = addr, delta
+		return delta
+	}
+	return 0
 }
 
 // simYield is a scheduling point inside a harness-owned seam (injected clock, rng, callbacks, interceptors).
@@ -324,6 +398,7 @@ func (w *World) hook(point string, try func() bool) {
 				break
 			}
 		}
+		w.progress++
 		t.Done()
 		return
 	}
@@ -342,6 +417,9 @@ func (w *World) hook(point string, try func() bool) {
 		t.gateWait = 1 << min(t.gateFails-1, 5)
 		t.gateBlocked = true
 		t.park(point, true)
+	}
+	if t.gateFails > 0 {
+		w.progress++ // a re-probe that got through changes the situation: whoever waits behind it may now be able to go on
 	}
 	t.gateFails = 0
 	// Only the task released in this step can be here (every other task parks before probing), so the log needs no lock.
